@@ -13,3 +13,10 @@ check(
     "Hypothesis stateful model-based testing + generated documents vs. reference extraction (loader level and CLI)",
     "DESIGN.md §3 C12",
 )
+check(
+    "C20", "exploration",
+    "Generated-input search over argv vectors and the world they refer to (directory, result files per tool option, AI-client environment, output path kind), each executed as a real CLI run in a forked child whose exit status is compared with a reference decision list written from the statement; plus the clause 'non-zero => report not written'. Exploration fits: the option grammar is unbounded, the oracle is a ten-line decision list.",
+    "Trusted: the reference decision list; weaker readings where the statement gives no order (info action + argument error: 0 or 3; status-1 condition + inconsistent AI configuration: 1 or 3); malformed documents unspecified. Root sandbox: EACCES unreachable, substitutes are directory / missing parent / path through a file / /dev/full. OpenAI clients cannot be constructed in this environment, so only inconsistent OpenAI settings and (in)consistent Azure Llama settings are generated. Thorough tier repeats a sample through /venv/bin/codemodder as a subprocess.",
+    "Hypothesis property-based testing of the CLI vs. reference decision list (fork-isolated real runs)",
+    "DESIGN.md §3 C20",
+)
